@@ -105,10 +105,10 @@ def breakdown_name(it):
     return 'unit::%s::%s' % (mod, fn)
 
 
-def run(repo, workdir, seed=None, rlimit=None, only_modules=None, timeout=900, threads=None):
+def run(repo, workdir, seed=None, rlimit=None, only_modules=None, timeout=900, threads=None, demote=(), _depth=0):
     os.makedirs(workdir, exist_ok=True)
     res = VerusResult()
-    unit = extract.build_unit(repo)
+    unit = extract.build_unit(repo, demote=demote)
     res.problems = list(unit.problems)
     text = unit.text().replace('} // verus!', CANARY + '} // verus!')
     upath = os.path.join(workdir, 'unit.rs')
@@ -162,6 +162,7 @@ def run(repo, workdir, seed=None, rlimit=None, only_modules=None, timeout=900, t
         if 'pub proof fn canary_must_fail' in l:
             canary_line = n
     compile_errors = []
+    front_items = []
     for line in p.stderr.split('\n'):
         line = line.strip()
         if not line.startswith('{'):
@@ -180,6 +181,8 @@ def run(repo, workdir, seed=None, rlimit=None, only_modules=None, timeout=900, t
             continue
         if d.get('code') is not None or vr.get('encountered-vir-error'):
             compile_errors.append(d.get('rendered', d.get('message', ''))[:1500])
+            fit = item_of_line(pl) if pl is not None else None
+            front_items.append(fit['item'] if (fit is not None and fit.get('kind') == 'fn' and fit.get('mode') == 'verified') else None)
             continue
         it = item_of_line(pl) if pl is not None else None
         rec = {'kind': kind, 'message': d.get('message', ''), 'line': pl, 'rendered': d.get('rendered', '')[:3000],
@@ -188,6 +191,16 @@ def run(repo, workdir, seed=None, rlimit=None, only_modules=None, timeout=900, t
             res.unattributed.append(rec)
         else:
             res.failures.setdefault(it['item'], []).append(rec)
+    if (compile_errors or vr.get('encountered-vir-error')) and front_items and all(front_items) and _depth < 3:
+        # every front-end error lies inside the body of an extracted function: that body left the Verus subset on this tree.
+        # Demote those functions (contract kept for callers, body unverified = undecided) and verify the rest.
+        r2 = run(repo, workdir, seed=seed, rlimit=rlimit, only_modules=only_modules, timeout=timeout, threads=threads,
+                 demote=set(demote) | set(front_items), _depth=_depth + 1)
+        for k in set(front_items):
+            r2.failures.setdefault(k, []).append({'kind': 'unsupported', 'message': 'body is outside the Verus subset on this tree: ' + (compile_errors[0][:300] if compile_errors else ''),
+                                                  'line': None, 'rendered': '\n'.join(compile_errors[:3]), 'callee': None})
+        r2.demoted = sorted(set(getattr(r2, 'demoted', [])) | set(front_items))
+        return r2
     if 'times-ms' not in out or compile_errors or vr.get('encountered-vir-error'):
         res.fatal = 'the extracted unit does not get through the Verus front end: ' + ('\n'.join(compile_errors[:5]) or p.stderr[-1500:])
         return res
